@@ -26,16 +26,25 @@ CONSTANTS MaxHist, Seeds
 Types == {"continental plate", "oceanic plate", "mantle layer", "plume", "subducting plate", "fault"}
 Kinds == {"random uniform distribution", "random uniform distribution deflected"}
 (* perm: the composition labels are listed in the other order (label # position in the lists) *)
-Worlds == {w \in [type : Types, kind : Kinds, perm : BOOLEAN] : w.type = "plume" => w.kind = "random uniform distribution deflected"}
+(* basis: the orientation the deflected model deflects from -- the identity, a quarter turn about the vertical, or a generic
+   rotation given by z-x-z Euler angles (non-zero off-diagonal entries) *)
+Worlds == {w \in [type : Types, kind : Kinds, perm : BOOLEAN, basis : {"identity", "quarter-turn", "generic"}] :
+              /\ (w.type = "plume" => w.kind = "random uniform distribution deflected")
+              /\ (w.basis # "identity" => (w.kind = "random uniform distribution deflected" /\ ~w.perm))}
 Ord(w, pair) == IF w.perm THEN <<pair[2], pair[1]>> ELSE pair
 IsLine(t) == t \in {"subducting plate", "fault"}
 
 Id3 == << <<1, 0, 0>>, <<0, 1, 0>>, <<0, 0, 1>> >>
+RotZ4 == << <<0, -1, 0>>, <<1, 0, 0>>, <<0, 0, 1>> >>
 GrainsModel(w) ==
      ("model" :> w.kind) @@ ("compositions" :> Ord(w, <<0, 1>>)) @@ ("grain sizes" :> Ord(w, <<-1, Dec(5, -1)>>))
   @@ ("normalize grain sizes" :> Ord(w, <<TRUE, FALSE>>))
   @@ (IF w.kind = "random uniform distribution deflected"
-      THEN ("deflections" :> Ord(w, <<1, Dec(5, -1)>>)) @@ ("basis rotation matrices" :> <<Id3, Id3>>) ELSE <<>>)
+      THEN ("deflections" :> Ord(w, <<1, Dec(5, -1)>>))
+           @@ (CASE w.basis = "identity" -> ("basis rotation matrices" :> <<Id3, Id3>>)
+                 [] w.basis = "quarter-turn" -> ("basis rotation matrices" :> <<RotZ4, RotZ4>>)
+                 [] OTHER -> ("basis Euler angles z-x-z" :> <<<<30, 40, 50>>, <<200, 75, 10>>>>))
+      ELSE <<>>)
 RandomComposition(w) == ("model" :> "random") @@ ("compositions" :> Ord(w, <<7, 8>>))
                         @@ ("min value" :> Ord(w, <<Dec(25, -2), 10>>)) @@ ("max value" :> Ord(w, <<Dec(75, -2), 11>>))
 
@@ -117,7 +126,7 @@ Steps(k) ==
 
 Behaviour ==
   [id |-> <<"rng", world, seed, [k \in 1..Len(hist) |-> hist[k][1][1]]>>,
-   labels |-> <<"rng", world.type, world.kind, IF world.perm THEN "labels-permuted" ELSE "labels-in-order">>,
+   labels |-> <<"rng", world.type, world.kind, IF world.perm THEN "labels-permuted" ELSE "labels-in-order", "basis-" \o world.basis>>,
    steps |-> << [op |-> "create", h |-> 1, wb |-> Doc(world, -1), seed |-> seed],
                 [op |-> "create", h |-> 2, wb |-> Doc(world, seed), seed |-> seed + 17],
                 [op |-> "create", h |-> 3, wb |-> Doc(world, -1), seed |-> seed + 1],
